@@ -29,7 +29,8 @@ SMALL = [("d", k, g, n) for k in "omt" for g in (-1, 0) for n in (b"a", b"b")] +
         [("s", b"a"), ("s", b"b"), ("move",)]
 BIG = [("d", k, g, n) for k in "omt" for g in (-1, -2, 0, 1) for n in (b"a", b"b", b"ab")] + \
       [("s", b"a"), ("s", b"b"), ("s", b""), ("s", b"ab"), ("s", b"a"), ("s", b"b"),
-       ("e", b"E1"), ("e", b"E2"), ("v", b"MV"), ("v", b""), ("move",), ("move",), ("movea",), ("g", 0), ("g", 1)]
+       ("e", b"E1"), ("e", b"E2"), ("v", b"MV"), ("v", b""), ("move",), ("move",), ("movea",), ("g", 0), ("g", 1),
+       ("p",), ("p",)]    # p: the parser is USED (parse of an empty vector) in the middle of the declarations
 
 
 def nchunks(tier):
@@ -64,6 +65,9 @@ def gen(tier, seed, chunk, nch):
                 calls.append(("s", rng.choice([b"x", b"y", b"z", b"x"])))
         if rng.random() < 0.2:
             calls.insert(rng.randrange(len(calls)), ("move",))
+        if rng.random() < 0.4:
+            # a parse between the declarations: a later clashing letter must still make the parser refuse
+            calls.insert(rng.randrange(1, len(calls) + 1), ("p",))
         cases.append({"calls": calls, "letters": True})
     # scale: the same calls on a parser that already holds many options (17 ... 300 in up to 3 groups)
     for _ in range((800 if tier == "quick" else 20000) // nch):
@@ -158,6 +162,8 @@ def script(cid, case):
             L.append("EV -1 " + hx(c[1]))
         elif c[0] == "v":
             L.append("MV -1 " + hx(c[1]))
+        elif c[0] == "p":
+            L.append("PARSE A")
         elif c[0] == "move":
             L.append("MOVE")
         elif c[0] == "movea":
@@ -247,6 +253,24 @@ def evaluate(case, lines, S):
                             "call #%d %s of %s: model says %s, implementation %s" %
                             (ci + 1, calls_txt[ci], calls_txt, want, got), case)
                 return
+        elif c[0] == "p":
+            l = nxt("P")
+            S.counters["parse-between-declarations"] += 1
+            seen, clash_now = set(), False
+            for o in T.objs:
+                if o["short"]:
+                    clash_now = clash_now or o["short"] in seen
+                    seen.add(o["short"])
+            ob_ = parse_observed(l)
+            if clash_now and ob_.exc != "parser_error":
+                S.violation("letter-clash:parse-did-not-refuse" + suffix,
+                            "two options share a letter at call #%d of %s but parse() gave %s" %
+                            (ci + 1, calls_txt, l[:200]), case)
+                return
+            if not clash_now and ob_.exc == "parser_error":   # (a missing required option is a user-input error)
+                S.violation("parse-between-declarations:refused-without-a-clash" + suffix,
+                            "call #%d of %s: parse() of an empty vector gave %s" % (ci + 1, calls_txt, l[:200]), case)
+                return
         elif c[0] in ("move", "movea"):
             l = nxt("MV")
             S.counters[c[0]] += 1
@@ -314,11 +338,13 @@ def _show_call(c):
         return "metavar('%s')" % c[1].decode()
     if c[0] == "g":
         return "group(g%d)" % (c[1] + 1)
+    if c[0] == "p":
+        return "parse({})"
     return "MOVE" if c[0] == "move" else "MOVE-ASSIGN"
 
 
 def finish(run, S, tier):
-    need = ["scale:parser-holds>=17-options", "scale:parser-holds>=257-options", "decl:same-kind-same-group", "decl:same-kind-other-group", "decl:cross-kind-same-group",
+    need = ["parse-between-declarations", "scale:parser-holds>=17-options", "scale:parser-holds>=257-options", "decl:same-kind-same-group", "decl:same-kind-other-group", "decl:cross-kind-same-group",
             "decl:cross-kind-other-group", "parsers-with-letter-clash", "move-followed-by-declaration",
             "short-name:change", "short-name:same", "decl:same-kind-same-group:after-move"]
     for n in need:
